@@ -189,6 +189,10 @@ def monitor_c02(E, D):
                     D.failed = ('violated', 'context written after a failed verification', None, st)
                     return
                 D.require(st, result_err_variant(ex, st, 'CupValidation'), 'failed verification returns Err(CupValidation)')
+                # ... and the in-memory poll interval is what it was (also when the code moved it out and back)
+                st0_ = State()
+                D.require(st, opt_dur_eq(opt_dur_terms(ex, st0_, spi_of(ex, st0_, 'sm', E.spi_path)), opt_dur_terms(ex, st, spi_of(ex, st, 'sm', E.spi_path))),
+                          'a failed verification leaves the server-dictated poll interval as it was')
             elif I_.get('verify_ok'):
                 n_verified += 1
             else:
